@@ -19,7 +19,7 @@ import (
 func init() {
 	fw.Register(&fw.Check{
 		ID: "C18", Level: "model_checking",
-		Rule:   "ban sets = none, all 30 singletons, all pairs from {INCLUDE, MACRO, PASTE, TYPE, Body, Path} (thorough: all 435 pairs) x documents = every closed selection of 1..2 pool blocks, each also with its last declaration moved into an included file, plus INCLUDE-of-a-missing-file probes; oracle: a banned kind occurs (directly, through a live PASTE, in an included file) => rejected with 'not allowed' located inside an occurrence of a banned kind and before the named file is touched; no banned kind occurs => result identical to the run without the option; non-trivial = (document, ban set) where a banned kind occurs; distinct = distinct (document, ban set) ; option values are reusable: for every ordered pair X != Y of the six core kinds, a project with Y and without X, first with [ban X (shared value), ban Y] => 'not allowed', then with the shared value alone => exactly the result without the option",
+		Rule:   "ban sets = none, all 30 singletons, all pairs from {INCLUDE, MACRO, PASTE, TYPE, Body, Path} (thorough: all 435 pairs) x documents = every closed selection of 1..2 pool blocks, each also with every one of its declarations in turn moved into an included file, plus INCLUDE-of-a-missing-file probes; oracle: a banned kind occurs (directly, through a live PASTE, in an included file) => rejected with 'not allowed' located inside an occurrence of a banned kind and before the named file is touched; no banned kind occurs => result identical to the run without the option; non-trivial = (document, ban set) where a banned kind occurs; distinct = distinct (document, ban set) ; option values are reusable: for every ordered pair X != Y of the six core kinds, a project with Y and without X, first with [ban X (shared value), ban Y] => 'not allowed', then with the shared value alone => exactly the result without the option",
 		Assume: []string{"a banned kind that occurs only inside a never-pasted macro body is not judged (the property lists written directly / by PASTE / included file)"},
 		Run:    runC18, QuickCap: 8 * time.Minute, ThoroughCap: 40 * time.Minute,
 	})
@@ -223,13 +223,19 @@ func runC18(c *fw.Ctx) {
 			}
 		}
 		emit(variant{label: name + " direct", nodes: nodes, proj: drv.Single(r.Text), spans: spansOf(map[string]*doc.Rendered{"root.jst": r})})
-		// last declaration moved to an included file
-		if len(nodes) >= 2 {
-			last := nodes[len(nodes)-1:]
-			rootNodes := append(append([]*doc.Node{}, nodes[:len(nodes)-1]...), doc.N("INCLUDE", "inc.jst"))
-			rr, ri := doc.Render(rootNodes, doc.DefaultStyle()), doc.Render(last, doc.DefaultStyle())
-			logical := append(append([]*doc.Node{}, nodes...), doc.N("INCLUDE", "inc.jst"))
-			emit(variant{label: name + " included", nodes: logical, proj: drv.Project{Root: "root.jst", Files: map[string]string{"root.jst": rr.Text, "inc.jst": ri.Text}},
+		// each declaration in turn moved to an included file (so that every kind of declaration is
+		// also the first thing read after the included file ends); the label of the last one stays
+		for k := len(nodes) - 1; k >= 1; k-- {
+			moved := nodes[k : k+1]
+			inc := doc.N("INCLUDE", "inc.jst")
+			rootNodes := append(append(append([]*doc.Node{}, nodes[:k]...), inc), nodes[k+1:]...)
+			rr, ri := doc.Render(rootNodes, doc.DefaultStyle()), doc.Render(moved, doc.DefaultStyle())
+			logical := append(append([]*doc.Node{}, nodes...), inc)
+			label := name + " included"
+			if k != len(nodes)-1 {
+				label = fmt.Sprintf("%s declaration-%d included", name, k)
+			}
+			emit(variant{label: label, nodes: logical, proj: drv.Project{Root: "root.jst", Files: map[string]string{"root.jst": rr.Text, "inc.jst": ri.Text}},
 				spans: spansOf(map[string]*doc.Rendered{"root.jst": rr, "inc.jst": ri})})
 		}
 	})
